@@ -40,11 +40,16 @@ impl ArtifactRequirement<TV, String> for Req {
 
 const SUM: &str = "sha256:2c26b46b68ffc68ff99b453c1d30413413422d706483bfa0f98a5e886266e7ae";
 
-fn artifact<V>(ver: V, cls: &str, i: usize) -> Artifact<V, Sha256, String> {
+fn other_os(o: Os) -> Os { if o == Os::Linux { Os::Darwin } else { Os::Linux } }
+fn other_arch(a: Arch) -> Arch { if a == Arch::Amd64 { Arch::Arm64 } else { Arch::Amd64 } }
+/// the four queries; the model's classes are relative to the query ("wrong-os" = the other OS)
+const QUERIES: [(Os, Arch); 4] = [(Os::Linux, Arch::Amd64), (Os::Linux, Arch::Arm64), (Os::Darwin, Arch::Amd64), (Os::Darwin, Arch::Arm64)];
+
+fn artifact<V>(ver: V, cls: &str, i: usize, q: (Os, Arch)) -> Artifact<V, Sha256, String> {
     Artifact {
         version: ver,
-        os: if cls == "wrong-os" { Os::Darwin } else { Os::Linux },
-        arch: if cls == "wrong-arch" { Arch::Arm64 } else { Arch::Amd64 },
+        os: if cls == "wrong-os" { other_os(q.0) } else { q.0 },
+        arch: if cls == "wrong-arch" { other_arch(q.1) } else { q.1 },
         url: format!("https://example.com/{i}"),
         checksum: SUM.parse::<Checksum<Sha256>>().unwrap(),
         metadata: if cls == "wrong-meta" { "bad".into() } else { "good".into() },
@@ -63,11 +68,13 @@ fn run_inv(v: &Value) -> Vec<String> {
         }
     };
     let idx = |url: &str| url.rsplit('/').next().unwrap().parse::<usize>().unwrap();
+    for q in QUERIES {
+    let on = |api: &str| format!("{api} for {}/{}", q.0, q.1);
     if v["total"] == true {
         let mut i = Inventory::<TV, Sha256, String>::new();
-        for (k, a) in inv.iter().enumerate() { i.push(artifact(TV { name: a["ver"].as_str().unwrap().into(), reqok: a["cls"] != "fails-req" }, a["cls"].as_str().unwrap(), k + 1)); }
-        verdict(i.resolve(Os::Linux, Arch::Amd64, &Req).map(|a| idx(&a.url)), "resolve", &mut p);
-        verdict(i.partial_resolve(Os::Linux, Arch::Amd64, &Req).map(|a| idx(&a.url)), "partial_resolve (total order)", &mut p);
+        for (k, a) in inv.iter().enumerate() { i.push(artifact(TV { name: a["ver"].as_str().unwrap().into(), reqok: a["cls"] != "fails-req" }, a["cls"].as_str().unwrap(), k + 1, q)); }
+        verdict(i.resolve(q.0, q.1, &Req).map(|a| idx(&a.url)), &on("resolve"), &mut p);
+        verdict(i.partial_resolve(q.0, q.1, &Req).map(|a| idx(&a.url)), &on("partial_resolve (total order)"), &mut p);
         match i.to_string().parse::<Inventory<TV, Sha256, String>>() {
             Ok(back) if back.artifacts == i.artifacts => {}
             Ok(_) => p.push("rendering to TOML and parsing back changes the artifacts".into()),
@@ -75,13 +82,14 @@ fn run_inv(v: &Value) -> Vec<String> {
         }
     } else {
         let mut i = Inventory::<PV, Sha256, String>::new();
-        for (k, a) in inv.iter().enumerate() { i.push(artifact(PV { name: a["ver"].as_str().unwrap().into(), reqok: a["cls"] != "fails-req" }, a["cls"].as_str().unwrap(), k + 1)); }
-        verdict(i.partial_resolve(Os::Linux, Arch::Amd64, &Req).map(|a| idx(&a.url)), "partial_resolve", &mut p);
+        for (k, a) in inv.iter().enumerate() { i.push(artifact(PV { name: a["ver"].as_str().unwrap().into(), reqok: a["cls"] != "fails-req" }, a["cls"].as_str().unwrap(), k + 1, q)); }
+        verdict(i.partial_resolve(q.0, q.1, &Req).map(|a| idx(&a.url)), &on("partial_resolve"), &mut p);
         match i.to_string().parse::<Inventory<PV, Sha256, String>>() {
             Ok(back) if back.artifacts == i.artifacts => {}
             Ok(_) => p.push("rendering to TOML and parsing back changes the artifacts".into()),
             Err(e) => p.push(format!("rendered inventory does not parse: {e}")),
         }
+    }
     }
     p
 }
@@ -142,6 +150,7 @@ fn main() {
         for p in probs { s.mismatches.push(Mismatch { signature: p.split('"').next().unwrap_or("").to_string() + if p.contains("is accepted") { "wrongly accepted" } else { "wrongly rejected / round trip" }, detail: p, case: v.clone() }); }
     }
     s.extra.insert("inventories".into(), json!(invs.len()));
+    s.extra.insert("queries_per_inventory".into(), json!(QUERIES.len()));
     s.extra.insert("checksum_shapes".into(), json!(sums.len()));
     s.samples = invs.iter().step_by((invs.len() / 3).max(1)).take(3).cloned().chain(sums.iter().step_by(200).take(2).cloned()).collect();
     s.print();
